@@ -105,3 +105,5 @@ pub fn quiet_panics() {
 pub mod rec;
 pub mod runner;
 pub mod workers;
+pub mod fbuild;
+pub mod pool;
